@@ -1,39 +1,457 @@
 package main
 
+// Section D: the compiled standard library (regenerated from the working tree) through the
+// shared driver harness/cdrv: one-shot vs every single source split vs single destination
+// splits vs random multi-splits, for valid, truncated and corrupted inputs.
+
 import (
+	"bytes"
+	"compress/flate"
+	"compress/gzip"
+	"compress/lzw"
+	"compress/zlib"
 	"fmt"
+	"image"
+	"image/color"
+	"image/gif"
+	"image/jpeg"
+	"image/png"
+	"os"
+	"path/filepath"
+	"sort"
 	"strings"
+	"sync"
 
 	cgen "github.com/google/wuffs/lang/verifc05"
 
+	"wvh/cdrv"
 	"wvh/hlib"
 )
 
-var stdBuild *hlib.StdBuild
-
-// stdScratch returns a scratch copy of the repository in which `wuffs gen` has been run with
-// the working tree's tools (so gen/wuffs/std/*.wuffs, the `use` summaries, exist).
-func stdScratch(repo string) (string, error) {
-	if stdBuild != nil {
-		return stdBuild.Scratch, nil
-	}
-	sb, err := hlib.GenStd(repo)
-	if err != nil {
-		return "", err
-	}
-	stdBuild = sb
-	return sb.Scratch, nil
+type stdInput struct {
+	codec string
+	name  string
+	data  []byte
+	kind  string // valid | truncated | corrupted
 }
 
-func stdCleanup() {
-	if stdBuild != nil {
-		stdBuild.Cleanup()
-		stdBuild = nil
+var extCodec = map[string]string{
+	".bz2": "bzip2", ".gz": "gzip", ".xz": "xz", ".lzma": "lzma", ".lz": "lzip", ".zlib": "zlib", ".deflate": "deflate",
+	".png": "png", ".gif": "gif", ".jpeg": "jpeg", ".bmp": "bmp", ".nie": "nie", ".qoi": "qoi", ".tga": "targa",
+	".wbmp": "wbmp", ".pgm": "netpbm", ".ppm": "netpbm", ".webp": "webp", ".pkm": "etc2", ".handsum": "handsum",
+	".th": "thumbhash", ".json": "json", ".cbor": "cbor", ".giflzw": "lzw",
+}
+
+func testDataInputs(repo string, maxLen int, perCodec int) []stdInput {
+	var files []string
+	for _, pat := range []string{"*", "artificial-*/*"} {
+		fs, _ := filepath.Glob(filepath.Join(repo, "test", "data", pat))
+		files = append(files, fs...)
 	}
+	sort.Strings(files)
+	type cand struct {
+		name string
+		data []byte
+	}
+	by := map[string][]cand{}
+	for _, f := range files {
+		codec, ok := extCodec[filepath.Ext(f)]
+		if !ok {
+			continue
+		}
+		st, err := os.Stat(f)
+		if err != nil || st.IsDir() || st.Size() == 0 || st.Size() > int64(maxLen) {
+			continue
+		}
+		b, err := os.ReadFile(f)
+		if err != nil {
+			continue
+		}
+		by[codec] = append(by[codec], cand{strings.TrimPrefix(f, filepath.Join(repo, "test", "data")+"/"), b})
+	}
+	var out []stdInput
+	var codecs []string
+	for c := range by {
+		codecs = append(codecs, c)
+	}
+	sort.Strings(codecs)
+	for _, c := range codecs {
+		cs := by[c]
+		sort.SliceStable(cs, func(i, j int) bool { return len(cs[i].data) < len(cs[j].data) })
+		// spread over the size range: smallest, largest, and evenly between
+		n := perCodec
+		if n > len(cs) {
+			n = len(cs)
+		}
+		for i := 0; i < n; i++ {
+			k := i * (len(cs) - 1) / max(n-1, 1)
+			if n == 1 {
+				k = 0
+			}
+			out = append(out, stdInput{c, cs[k].name, cs[k].data, "valid"})
+		}
+	}
+	return out
+}
+
+func max(a, b int) int {
+	if a > b {
+		return a
+	}
+	return b
+}
+
+func someText(rng *hlib.Rand, n int) []byte {
+	words := []string{"the ", "quick ", "brown ", "fox ", "abracadabra ", "wuffs ", "0123456789", "\n", "zzzzzzzzzzzzzzzz", "coroutine "}
+	var b bytes.Buffer
+	for b.Len() < n {
+		if rng.Chance(1, 6) {
+			b.Write(rng.Bytes(rng.Range(1, 12)))
+		} else {
+			b.WriteString(words[rng.Intn(len(words))])
+		}
+	}
+	return b.Bytes()[:n]
+}
+
+func someImage(rng *hlib.Rand, w, h int, kind int) image.Image {
+	switch kind {
+	case 0:
+		m := image.NewRGBA(image.Rect(0, 0, w, h))
+		for y := 0; y < h; y++ {
+			for x := 0; x < w; x++ {
+				m.Set(x, y, color.RGBA{uint8(x * 17), uint8(y * 29), uint8(rng.Intn(256)), 255})
+			}
+		}
+		return m
+	case 1:
+		m := image.NewGray(image.Rect(0, 0, w, h))
+		for i := range m.Pix {
+			m.Pix[i] = uint8(i*7) ^ uint8(rng.Intn(16))
+		}
+		return m
+	default:
+		pal := color.Palette{color.RGBA{0, 0, 0, 255}, color.RGBA{255, 0, 0, 255}, color.RGBA{0, 255, 0, 255}, color.RGBA{0, 0, 255, 255},
+			color.RGBA{255, 255, 0, 255}, color.RGBA{255, 255, 255, 255}, color.RGBA{9, 99, 199, 255}, color.RGBA{0, 0, 0, 0}}
+		m := image.NewPaletted(image.Rect(0, 0, w, h), pal)
+		for i := range m.Pix {
+			m.Pix[i] = uint8((i/3 + rng.Intn(2)) % len(pal))
+		}
+		return m
+	}
+}
+
+// encoderInputs: valid streams from Go's encoders.
+func encoderInputs(rng *hlib.Rand, n int) []stdInput {
+	var out []stdInput
+	add := func(codec, name string, b []byte) { out = append(out, stdInput{codec, name, b, "valid"}) }
+	for i := 0; i < n; i++ {
+		plain := someText(rng, rng.Range(40, 1400))
+		level := []int{flate.HuffmanOnly, flate.BestSpeed, flate.BestCompression, flate.NoCompression}[i%4]
+		var b bytes.Buffer
+		fw, _ := flate.NewWriter(&b, level)
+		fw.Write(plain)
+		fw.Close()
+		add("deflate", fmt.Sprintf("go-flate-l%d-%d", level, i), append([]byte(nil), b.Bytes()...))
+		b.Reset()
+		zw, _ := zlib.NewWriterLevel(&b, level)
+		zw.Write(plain)
+		zw.Close()
+		add("zlib", fmt.Sprintf("go-zlib-l%d-%d", level, i), append([]byte(nil), b.Bytes()...))
+		b.Reset()
+		gw, _ := gzip.NewWriterLevel(&b, level)
+		gw.Name = "n.txt"
+		gw.Comment = "c"
+		gw.Extra = []byte{1, 2, 3, 4}
+		gw.Write(plain)
+		gw.Close()
+		add("gzip", fmt.Sprintf("go-gzip-l%d-%d", level, i), append([]byte(nil), b.Bytes()...))
+		b.Reset()
+		lw := lzw.NewWriter(&b, lzw.LSB, 8)
+		lw.Write(plain)
+		lw.Close()
+		add("lzw", fmt.Sprintf("go-lzw-%d", i), append([]byte(nil), b.Bytes()...))
+		b.Reset()
+		w, h := rng.Range(3, 20), rng.Range(3, 20)
+		png.Encode(&b, someImage(rng, w, h, i%3))
+		add("png", fmt.Sprintf("go-png-%dx%d-k%d", w, h, i%3), append([]byte(nil), b.Bytes()...))
+		b.Reset()
+		jpeg.Encode(&b, someImage(rng, w, h, i%2), &jpeg.Options{Quality: []int{30, 75, 95}[i%3]})
+		add("jpeg", fmt.Sprintf("go-jpeg-%dx%d-k%d", w, h, i%2), append([]byte(nil), b.Bytes()...))
+		b.Reset()
+		g := &gif.GIF{}
+		for f := 0; f < 1+i%3; f++ {
+			g.Image = append(g.Image, someImage(rng, w, h, 2).(*image.Paletted))
+			g.Delay = append(g.Delay, 3)
+		}
+		gif.EncodeAll(&b, g)
+		add("gif", fmt.Sprintf("go-gif-%dx%d-f%d", w, h, 1+i%3), append([]byte(nil), b.Bytes()...))
+		// netpbm is simple enough to write by hand
+		pix := rng.Bytes(w * h * 3)
+		add("netpbm", fmt.Sprintf("ppm-%dx%d", w, h), append([]byte(fmt.Sprintf("P6\n%d %d\n255\n", w, h)), pix...))
+	}
+	return out
+}
+
+func derived(rng *hlib.Rand, in []stdInput) []stdInput {
+	var out []stdInput
+	for _, x := range in {
+		out = append(out, x)
+		if len(x.data) < 4 {
+			continue
+		}
+		cut := rng.Range(1, len(x.data)-1)
+		out = append(out, stdInput{x.codec, x.name + fmt.Sprintf("[:%d]", cut), append([]byte(nil), x.data[:cut]...), "truncated"})
+		c := append([]byte(nil), x.data...)
+		p := rng.Intn(len(c))
+		c[p] ^= byte(1 << uint(rng.Intn(8)))
+		out = append(out, stdInput{x.codec, x.name + fmt.Sprintf("[^%d]", p), c, "corrupted"})
+	}
+	return out
+}
+
+type stdRes struct {
+	raw    string
+	crash  string
+	status string
+	ri     uint64
+	out    string
+	extra  string // w,h,frames,fdigest
+	checks string
+}
+
+func parseStd(line string, err error) stdRes {
+	if err != nil {
+		if ce, ok := err.(*cdrv.CrashError); ok {
+			return stdRes{raw: line, crash: ce.Kind()}
+		}
+		return stdRes{raw: line, crash: "error:" + err.Error()}
+	}
+	res, perr := cdrv.ParseResult(line)
+	if perr != nil {
+		return stdRes{raw: line, crash: "unparsable"}
+	}
+	o := res.OutHex
+	if o == "" {
+		o = res.OutDigest
+	}
+	return stdRes{raw: line, status: res.Status, ri: res.Ri, out: fmt.Sprintf("%d:%s", res.OutLen, o),
+		extra:  fmt.Sprintf("w=%s h=%s frames=%s fdigest=%s", res.KV["w"], res.KV["h"], res.KV["frames"], res.KV["fdigest"]),
+		checks: strings.Join(res.Checks, ",")}
+}
+
+func (a stdRes) isError() bool { return strings.HasPrefix(a.status, "#") }
+
+func sameStd(a, b stdRes) (bool, string) {
+	switch {
+	case a.crash != "" || b.crash != "":
+		if a.crash == b.crash {
+			return true, ""
+		}
+		return false, "one run crashed (" + a.crash + " / " + b.crash + ")"
+	case a.status != b.status:
+		return false, "final status differs"
+	case a.out != b.out:
+		return false, "output bytes differ"
+	case a.extra != b.extra:
+		return false, "observable state (image size, frame count, per-frame pixel digests) differs"
+	case !a.isError() && a.ri != b.ri:
+		return false, "consumed-byte count differs (final status is not an error)"
+	}
+	return true, ""
 }
 
 func sectionD(r *hlib.Run) {
-	r.Note("section D (std decoders through harness/cdrv) not wired yet")
+	defer cdrv.Cleanup()
+	ds, errs := cdrv.BuildAll(r.Repo, cdrv.PlainGcc, cdrv.AsanUbsan)
+	for fl, err := range errs {
+		if err != nil {
+			fmt.Fprintln(os.Stderr, "c05: cdrv build", fl, ":", err)
+			os.Exit(2)
+		}
+	}
+	rng := r.Rand.Fork()
+	maxLen, perCodec, nEnc := 1300, 2, 2
+	if r.Thorough {
+		maxLen, perCodec, nEnc = 6000, 8, 10
+	}
+	inputs := derived(rng, append(testDataInputs(r.Repo, maxLen, perCodec), encoderInputs(rng, nEnc)...))
+	codecsLine, _ := ds[cdrv.PlainGcc].Run("codecs")
+	have := map[string]byte{}
+	for _, f := range strings.Fields(codecsLine) {
+		if kv := strings.SplitN(f, ":", 2); len(kv) == 2 && len(kv[1]) == 1 {
+			have[kv[0]] = kv[1][0]
+		}
+	}
+
+	type job struct {
+		in    stdInput
+		fl    cdrv.Flavour
+		cmds  []string
+		kinds []string
+		res   []stdRes
+	}
+	var jobs []*job
+	const big = "99999999"
+	for _, in := range inputs {
+		kind, ok := have[in.codec]
+		if !ok {
+			r.Count("D:codec-not-in-snapshot:" + in.codec)
+			continue
+		}
+		hasDst := kind == 'T' || kind == 'K'
+		hex := hlib.Hex(in.data)
+		pre := "run " + in.codec + " "
+		n := len(in.data)
+		for _, fl := range []cdrv.Flavour{cdrv.PlainGcc, cdrv.AsanUbsan} {
+			j := &job{in: in, fl: fl}
+			add := func(kind, opts string) {
+				j.cmds = append(j.cmds, pre+opts+hex)
+				j.kinds = append(j.kinds, kind)
+			}
+			add("oneshot", "")
+			stride := 1
+			if fl == cdrv.AsanUbsan {
+				stride = 1 + n/24
+			}
+			for k := 1; k < n; k += stride {
+				add("src1", fmt.Sprintf("src=%d,%s ", k, big))
+			}
+			add("src-bytewise", "src=1 ")
+			if hasDst {
+				add("dst-bytewise", "dst=1 ")
+				add("both-bytewise", "src=1 dst=1 ")
+			}
+			for m := 0; m < 4; m++ {
+				var ss, dd []string
+				for i := 0; i < 40; i++ {
+					ss = append(ss, fmt.Sprint(rng.Range(1, 1+n/8)))
+					dd = append(dd, fmt.Sprint(rng.Range(1, 40)))
+				}
+				opt := "src=" + strings.Join(ss, ",") + " "
+				if hasDst && m%2 == 1 {
+					opt += "dst=" + strings.Join(dd, ",") + " "
+				}
+				add("multi", opt)
+			}
+			jobs = append(jobs, j)
+		}
+	}
+
+	// run, 8 processes per flavour
+	type item struct {
+		j *job
+		k int
+	}
+	work := map[cdrv.Flavour][]item{}
+	for _, j := range jobs {
+		j.res = make([]stdRes, len(j.cmds))
+		for k := range j.cmds {
+			work[j.fl] = append(work[j.fl], item{j, k})
+		}
+	}
+	runAll := func() {
+		var wg sync.WaitGroup
+		for fl, items := range work {
+			var mu sync.Mutex
+			next := 0
+			for w := 0; w < 8; w++ {
+				wg.Add(1)
+				go func(fl cdrv.Flavour, items []item) {
+					defer wg.Done()
+					d := ds[fl].Spawn()
+					defer d.Close()
+					for {
+						mu.Lock()
+						i := next
+						next++
+						mu.Unlock()
+						if i >= len(items) {
+							return
+						}
+						it := items[i]
+						if it.j.res[it.k].raw != "" || it.j.res[it.k].crash != "" {
+							continue
+						}
+						it.j.res[it.k] = parseStd(d.Run(it.j.cmds[it.k]))
+					}
+				}(fl, items)
+			}
+		}
+		wg.Wait()
+	}
+	runAll()
+	// second pass: single destination splits, now that the one-shot output length is known
+	work = map[cdrv.Flavour][]item{}
+	for _, j := range jobs {
+		if k := have[j.in.codec]; !(k == 'T' || k == 'K') {
+			continue
+		}
+		one := j.res[0]
+		var outLen int
+		fmt.Sscanf(one.out, "%d:", &outLen)
+		unit := 1
+		if have[j.in.codec] == 'K' {
+			outLen /= 8 // tokens
+		}
+		stride := 1 + outLen/48
+		if j.fl == cdrv.AsanUbsan {
+			stride = 1 + outLen/12
+		}
+		for k := unit; k < outLen; k += stride {
+			j.cmds = append(j.cmds, fmt.Sprintf("run %s dst=%d,65536 %s", j.in.codec, k, hlib.Hex(j.in.data)))
+			j.kinds = append(j.kinds, "dst1")
+			j.res = append(j.res, stdRes{})
+			work[j.fl] = append(work[j.fl], item{j, len(j.cmds) - 1})
+		}
+	}
+	runAll()
+
+	oneshot := map[string]stdRes{}
+	for _, j := range jobs {
+		one := j.res[0]
+		key := j.in.codec + "/" + j.in.name
+		if prev, ok := oneshot[key]; ok {
+			if same, why := sameStd(prev, one); !same {
+				r.Fail("flavour-mismatch:"+j.in.codec, "gcc -O2 and ASan/UBSan builds of std disagree on a one-shot run: "+why,
+					fmt.Sprintf("%s\n-> %s\n-> %s", j.cmds[0], prev.raw, one.raw))
+			}
+		} else {
+			oneshot[key] = one
+			r.Count("D:inputs:" + j.in.codec + ":" + j.in.kind)
+			st := one.status
+			if one.crash != "" {
+				st = "crash"
+			} else if one.isError() {
+				st = "error"
+			}
+			r.Count("D:oneshot-status:" + st)
+		}
+		if one.crash != "" {
+			r.Fail("crash:"+j.in.codec+":"+one.crash, "std decoder crashed on a one-shot run ("+string(j.fl)+")", j.cmds[0]+"\n"+one.raw)
+			continue
+		}
+		for k := 1; k < len(j.cmds); k++ {
+			rr := j.res[k]
+			r.Count("D:runs:" + j.kinds[k])
+			r.Nontrivial(fmt.Sprintf("D:%s:%s:%s:%d", j.in.codec, j.in.name, j.kinds[k], k))
+			if rr.checks != "" {
+				r.Count("D:io-contract-flag")
+			}
+			if same, why := sameStd(one, rr); !same {
+				key := "split-dependent:" + j.in.codec + ":" + j.in.kind
+				if rr.crash != "" {
+					key = "crash:" + j.in.codec + ":" + rr.crash
+				}
+				r.Fail(key, fmt.Sprintf("std/%s (%s input %s): %s (%s run, %s build)", j.in.codec, j.in.kind, j.in.name, why, j.kinds[k], j.fl),
+					fmt.Sprintf("one-shot: %s\n  -> %s\n%s: %s\n  -> %s", j.cmds[0], one.raw, j.kinds[k], j.cmds[k], rr.raw))
+				break
+			}
+		}
+	}
+	for _, d := range ds {
+		d.Close()
+	}
 }
 
 // genTables writes Gen/C05_Tables.lean: builtin.go's readMethods rows.
